@@ -272,7 +272,9 @@ Step(e, crc) ==
     [] e.ev = "frag_preview" ->
          JudgePreview(e, TRUE) @@ [tx |-> tx, rx |-> rx, tb |-> tb] @@ W1
     [] e.ev = "cfg" ->
-         [Empty EXCEPT !.cls = <<"cfg", e.op>>] @@ [tx |-> TxCfg(tx, e.op, e.n), rx |-> rx, tb |-> tb] @@ W1
+         [Empty EXCEPT !.cls = <<"cfg", e.op>>] @@
+         [tx |-> TxCfg(tx, e.op, e.n), tb |-> tb,
+          rx |-> IF e.op = "set_crc" /\ Has(e, "inv") THEN [rx EXCEPT !.txinv = e.inv] ELSE rx] @@ W1
     [] e.ev = "hdr_dec_run" -> JudgeHdrDec(e, tb) @@ [tx |-> tx, rx |-> rx]
     [] e.ev = "hdr_enc_run" -> JudgeHdrEnc(e, tb) @@ [tx |-> tx, rx |-> rx]
     [] e.ev = "ext_new_run" -> JudgeExtNew(e, tb) @@ [tx |-> tx, rx |-> rx]
@@ -294,10 +296,16 @@ Init ==
   /\ crcCache = [k \in {} |-> ZeroCrc]
   /\ crcTab = CrcTable
 
+\* what a complementing calculator returns for the same fields
+CrcAdj(c, e) ==
+  IF c.need /\ ((e.ev = "encap" /\ rx.txinv) \/ (e.ev = "decap" /\ rx.inv))
+  THEN [c EXCEPT !.val = <<65535 - c.val[1], 65535 - c.val[2]>>] ELSE c
+
 Consume ==
   /\ l <= Len(Rec)
   /\ \E e \in {Rec[l]} :
-     \E crc \in {CrcFor(e)} :
+     \E crc0 \in {CrcFor(e)} :
+     \E crc \in {CrcAdj(crc0, e)} :
      \E j \in {Step(e, crc)} :
         LET sc == IF e.ev = "begin" THEN e.scn ELSE scn
             nb == SetToSeq(j.bad)
@@ -307,9 +315,9 @@ Consume ==
            /\ rx' = j.rx
            /\ tb' = j.tb
            /\ evals' = evals + j.weight
-           /\ crcCache' = IF crc.new
-                          THEN (IF Cardinality(DOMAIN crcCache) > 300 THEN (crc.key :> crc.val)
-                                ELSE (crc.key :> crc.val) @@ crcCache)
+           /\ crcCache' = IF crc0.new
+                          THEN (IF Cardinality(DOMAIN crcCache) > 300 THEN (crc0.key :> crc0.val)
+                                ELSE (crc0.key :> crc0.val) @@ crcCache)
                           ELSE crcCache
            /\ nbad' = nbad + Len(nb)
            /\ bad' = bad \o SelectSeq(tagged, LAMBDA x : (IF x.c \in DOMAIN badBy THEN badBy[x.c] ELSE 0) < MaxPerClause)
